@@ -18,7 +18,7 @@ RULE = (
     "enumerated.  Exchange points OUT: Vertex.links, Link.vertices, Universe.vertices, BaseObject.universes, "
     "UniverseLaws.edge_whitelist (outer and inner mapping), neighbors() (cache-filling call right after an invalidation, and cache hit), find_links(), "
     "bft / dft_recursive / dft_iterative results, unlink(destroy=False) result.  Exchange points IN (with container sizes 0, 1 and more): Vertex(links=, "
-    "universes=, attributes=), Link subclass(vertices=), Universe(vertices=), UniverseLaws(edge_whitelist=) outer "
+    "universes=, attributes=), Link subclass(vertices=), Universe(vertices=) (also a list of 257 / 300 distinct vertices), Link(vertices=) with 260 entries, UniverseLaws(edge_whitelist=) outer "
     "and inner dict (also handed over as a MappingProxyType view of a dict the caller keeps), load_adj_dict input and rows, load_adj_matrix matrix, rows and side array.  Mutations: "
     "append, extend, insert, remove/pop, clear, sort, reverse, item assignment/deletion, add/discard/update as the "
     "type permits (TypeError/AttributeError = immutable, accepted).  After every mutation the structural snapshot "
